@@ -68,6 +68,7 @@ impl DeletionQuery {
                         date,
                     })
                 } else {
+                    let found_before = deletion_query.edges.len();
                     for edge_deletion in &del.references {
                         let dest = parameters
                             .params
@@ -88,9 +89,12 @@ impl DeletionQuery {
                             });
                         }
                     }
-                    let mut node = *node;
-                    node.mdate = date;
-                    deletion_query.updated_nodes.push(node);
+                    //the source row is only touched when a reference is really removed
+                    if deletion_query.edges.len() > found_before {
+                        let mut node = *node;
+                        node.mdate = date;
+                        deletion_query.updated_nodes.push(node);
+                    }
                 }
             }
         }
